@@ -204,7 +204,14 @@ def full_product(ctx):
         while guard is not None and not isinstance(guard, ast.If):
             guard = getattr(guard, "_parent", None)
         names = {n.id for n in ast.walk(guard.test) if isinstance(n, ast.Name)} if guard is not None else set()
-        if not (names & {"filter_func", "sign", "sign_func"}):
+        selectors = set(ps[2:])                     # the function-valued parameters (filter / sign / key-out)
+        for n2 in ast.walk(fn):                     # ... and locals holding what one of them returned
+            if isinstance(n2, (ast.NamedExpr, ast.Assign)) and isinstance(n2.value, ast.Call) and isinstance(n2.value.func, ast.Name) \
+                    and n2.value.func.id in selectors:
+                tg = n2.target if isinstance(n2, ast.NamedExpr) else n2.targets[0]
+                if isinstance(tg, ast.Name):
+                    selectors.add(tg.id)
+        if not (names & selectors):
             ctx.violation(q + "#continue", f"a term is skipped under {un(guard.test) if guard else 'no guard'!r}, which is "
                                            f"neither the zero-sign test nor the operator's filter", cont)
             return
